@@ -427,6 +427,14 @@ func (w *world) newCall(id int, dir string) (*call, []httputil.SendOption, *limi
 		c.pollLim = tp.Draw(5)
 		pollB = &limitedBackOff{limit: c.pollLim, d: interval}
 	}
+	// The options are independent settings: callers list them in any order.
+	// Half of the runs (out of band) pass them in the opposite order.
+	if w.s.Tape.Variant%2 == 1 {
+		for i, j := 0, len(opts)-1; i < j; i, j = i+1, j-1 {
+			opts[i], opts[j] = opts[j], opts[i]
+		}
+		w.s.Probe("options_in_reverse_order")
+	}
 	return c, opts, pollB
 }
 
